@@ -8,6 +8,9 @@ Kinds of cases (all literals):
         map_overlap(stencil) == trim(stencil(np.pad(x, boundary)))   (stencil window fits inside depth)
   ("mo2", shape_x, chunks_x, shape_y, chunks_y, d, boundary)
         two-array map_overlap (chunk alignment + block broadcasting) vs the same reference
+  ("mod", shape, chunks, depth, boundary, variant)
+        map_overlap whose function changes the rank: variant ('drop', a) = stencil then sum over axis a (drop_axis=a, depth 0 on a),
+        ('new', k) = stencil then a new length-1 axis at k (new_axis=k); depth and boundary given as per-axis dicts
   ("swv", shape, chunks, window, axis, automatic_rechunk)
         sliding_window_view == numpy.lib.stride_tricks.sliding_window_view
 depth  = tuple per axis of int | (left, right);  boundary = tuple per axis of 'none'|'periodic'|'reflect'|'nearest'|int
@@ -68,7 +71,9 @@ def RULE(tier):
         "rechunk-to-fit path). rt: content of every overlapped block and trim_internal(overlap(x)) == x. mo: 3 stencils (asymmetric-weight box "
         "sum of radius == depth, box max, extreme-corner difference) through map_overlap with depth/boundary given as tuple, dict or scalar "
         f"(quick: not for shapes {MO_SKIP_QUICK}) "
-        "vs the stencil applied to the np.pad'ed whole array and trimmed. mo2: two arrays (every pair of chunkings; 2-d with broadcast 1-d). "
+        "vs the stencil applied to the np.pad'ed whole array and trimmed. mod: the box sum followed by a reduction over each axis (drop_axis, "
+        f"shapes {MOD_SHAPES[tier]}, depth 0 on the dropped axis, all 25 per-axis boundary pairs) or by a new axis at every position (new_axis, "
+        f"shapes {MOD_NEW_SHAPES[tier]}), depth/boundary as per-axis dicts. mo2: two arrays (every pair of chunkings; 2-d with broadcast 1-d). "
         "swv: sliding_window_view for every window shape, axis spec (None, single, reversed pair, repeated axis) and automatic_rechunk vs "
         "NumPy. non-trivial = >= 2 chunks on an axis with depth/window > 0/1."
     )
@@ -131,8 +136,37 @@ SWV_SHAPES = {
     "quick": [(n,) for n in range(1, 7)] + [(2, 3), (3, 2), (3, 4)],
     "thorough": [(n,) for n in range(1, 9)] + [(2, 3), (3, 2), (3, 3), (3, 4), (4, 3), (4, 4), (2, 2, 2)],
 }
+MOD_SHAPES = {"quick": ((2, 3), (3, 2), (3, 4)), "thorough": ((2, 3), (3, 2), (3, 3), (3, 4), (4, 3), (4, 4), (2, 2, 2), (2, 3, 2))}
+MOD_NEW_SHAPES = {"quick": ((2, 3), (3, 2)), "thorough": ((2, 3), (3, 2), (3, 4), (4, 3), (2, 2, 2))}
+
+
+def mod_specs(shape, tier):
+    """(depth, boundary, variant) for the rank-changing map_overlap cases"""
+    nd = len(shape)
+    out = []
+    dmax = DMAX[tier]
+    for a in range(nd):
+        # the dropped axis cannot be trimmed again, so it is not overlapped (depth 0); its boundary entry is still enumerated
+        for dk in itertools.product(range(0, dmax + 1), repeat=nd - 1):
+            if not any(dk):
+                continue
+            depth = dk[:a] + (0,) + dk[a:]
+            bs = itertools.product(BKINDS, repeat=nd) if nd == 2 else boundaries_for(nd, tier)
+            for b in bs:
+                out.append((depth, tuple(b), ("drop", a)))
+    if shape in MOD_NEW_SHAPES[tier]:
+        depths = [d for d in sym_depths(nd, dmax) if any(d)]
+        if tier == "quick":
+            depths = [d for d in depths if d in ((1, 1), (2, 1), (0, 2), (1, 0), (1, 2))]
+        for k in range(nd + 1):
+            for depth in depths:
+                for b in boundaries_for(nd, "quick" if nd == 2 else tier):
+                    out.append((depth, tuple(b), ("new", k)))
+    return out
+
+
 MO2_PAIRS = {
-    "quick": [((4,), (4,)), ((5,), (5,)), ((2, 3), (3,)), ((3, 3), (3, 1))],
+    "quick": [((4,), (4,)), ((2, 3), (3,)), ((3, 3), (3, 1))],
     "thorough": [((4,), (4,)), ((5,), (5,)), ((6,), (6,)), ((2, 3), (3,)), ((3, 4), (4,)), ((3, 3), (3, 1)), ((3, 4), (3, 4)), ((4, 4), (1, 4))],
 }
 
@@ -146,6 +180,10 @@ def shards(tier):
                 continue  # budget: the transposed twin (3,4) is enumerated; (4,3) stays in the rt kind
             for part in range(k):
                 out.append((kind, shape, part, k))
+    for shape in MOD_SHAPES[tier]:
+        k = nparts_for(shape, tier)
+        for part in range(k):
+            out.append(("mod", shape, part, k))
     for shape in SWV_SHAPES[tier]:
         k = 4 if len(shape) > 1 and shape != (2, 3) and shape != (3, 2) else 1
         for part in range(k):
@@ -215,6 +253,14 @@ def cases_of(shard, tier):
                                 if tier == "quick" and fn != "wsum" and len(set(boundary)) != 1:
                                     continue  # quick: mixed per-axis boundaries only with the box sum
                                 yield ("mo", shape, ch, depth, boundary, ar, fn, forms[fi % len(forms)])
+    elif kind == "mod":
+        shape, part, k = shard[1], shard[2], shard[3]
+        specs = mod_specs(shape, tier)
+        for ci, ch in enumerate(enums.chunkings(shape)):
+            if ci % k != part:
+                continue
+            for depth, boundary, variant in specs:
+                yield ("mod", shape, ch, depth, boundary, variant)
     elif kind == "swv":
         shape, part, k = shard[1], shard[2], shard[3]
         specs = swv_specs(shape)
@@ -303,6 +349,18 @@ def stencil(a, kind="wsum", win=()):
     return out
 
 
+def stencil_drop(a, win=(), axis=0):
+    a = np.asarray(a)
+    if a.ndim != len(win):
+        return a.sum(axis=axis) if a.ndim > axis else a
+    return stencil(a, "wsum", win).sum(axis=axis)
+
+
+def stencil_new(a, win=(), axis=0):
+    a = np.asarray(a)
+    return np.expand_dims(stencil(a, "wsum", win), axis)
+
+
 def stencil2(a, b, wa=(), wb=()):
     return stencil(a, "wsum", wa) * 1000 + stencil(b, "corner", wb)
 
@@ -346,6 +404,18 @@ def expected_overlap(x, out_chunks, depth, boundary):
 
 # --------------------------------------------------------------------------- known classes (see C26.findings.json)
 def known_class(case):
+    """narrow input classes of recorded findings (C26.findings.json); appended to the finding key"""
+    if case[0] == "mod" and case[5][0] == "new":
+        _, shape, ch, depth, boundary, (_, k) = case
+        nd = len(shape)
+        if k == nd:
+            return "new-axis-last"
+
+        def trimsig(j):  # what trimming axis j depends on
+            return (depth[j], boundary[j] == "none") if max(lr(depth[j])) else 0
+
+        if any(trimsig(j) != trimsig(k) for j in range(k + 1, nd)):
+            return "new-axis-before-unequal-axes"
     return None
 
 
@@ -444,6 +514,43 @@ def run_case(case, ctx):
         why = arr.equal(got, want)
         if why:
             ctx.violation(f"mo:wrong-value:{fn}{suffix}", case, why)
+        return
+
+    if kind == "mod":
+        _, shape, ch, depth, boundary, variant = case
+        x = arr.data(shape, ctx.seed)
+        d = da.from_array(x, chunks=ch)
+        nontrivial = any(len(c) >= 2 and max(lr(dp)) > 0 for c, dp in zip(ch, depth))
+        win = tuple(lr(dp) for dp in depth)
+        full = trim_whole(stencil(pad_whole(x, depth, boundary), "wsum", win), depth, boundary)
+        if variant[0] == "drop":
+            f = functools.partial(stencil_drop, win=win, axis=variant[1])
+            want = full.sum(axis=variant[1])
+            kw = {"drop_axis": variant[1]}
+        else:
+            f = functools.partial(stencil_new, win=win, axis=variant[1])
+            want = np.expand_dims(full, variant[1])
+            kw = {"new_axis": variant[1]}
+        refuse = too_small(shape, ch, depth, True)
+        try:
+            r = da.map_overlap(f, d, depth=dict(enumerate(depth)), boundary=dict(enumerate(boundary)), dtype=x.dtype, **kw)
+            got, prob = arr.compute_blocks(r)
+        except Hang:
+            raise
+        except Exception as e:  # noqa: BLE001
+            ctx.case(case, nontrivial=nontrivial, outcome=("exc", type(e).__name__))
+            if isinstance(e, ValueError) and refuse:
+                ctx.count("rejected")
+                return
+            ctx.violation(f"mod-{variant[0]}:dask-raises:{type(e).__name__}{suffix}", case, f"map_overlap raised {e!r}; reference gives {want!r}")
+            return
+        ctx.case(case, nontrivial=nontrivial, outcome=(want.shape, r.chunks))
+        if prob:
+            ctx.violation(f"mod-{variant[0]}:lazy-metadata{suffix}", case, prob)
+            return
+        why = arr.equal(got, want)
+        if why:
+            ctx.violation(f"mod-{variant[0]}:wrong-value{suffix}", case, why)
         return
 
     if kind == "mo2":
